@@ -4,8 +4,11 @@ Function-level correspondence of every codec of coq/Model/Names.v with the real 
 on names from a metacharacter-biased generator, and a wire-level check over real loopback
 sessions (MemoryPathIO backend): every path-taking client method must denote the same object."""
 import asyncio
+import os
 import pathlib
+import shutil
 import stat as statmod
+import tempfile
 
 import aioftp
 from aioftp import errors
@@ -31,7 +34,7 @@ LEVEL_TEXT = (
     "exactly that node, CWD enters it and PWD's reply decodes to its path, MLSD of the parent lists exactly one entry named n whose "
     "line decodes to n, MLST asks the backend about exactly it, STOR/RETR below it round-trip the bytes, DELE, RNFR/RNTO to a free "
     "sibling and RMD act on exactly it; built from C08_resolve_to_str, C08_event_of_client_line and the per-command theorems "
-    "C08_nt_cwd_pwd, C08_nt_listing, C08_nt_stor_retr, C08_nt_rename (from every ready world), C08_session_table_is_reference "
+    "C08_nt_cwd_pwd, C08_nt_listing, C08_nt_stor_retr, C08_nt_stor_sibling_untouched (an upload leaves every other name of the directory as it was), C08_nt_rename (from every ready world), C08_session_table_is_reference "
     "(re-checked each run). Codec theorems for every valid name: C08_cmd_path_roundtrip, C08_cmd_path_resolved, "
     "C08_mlsd_name_roundtrip, C08_build_mlsx_shape, C08_mlst_name_roundtrip, C08_pwd_roundtrip (full strength, quotes anywhere), "
     "C08_pwd_roundtrip_valid, C08_pwd_line_roundtrip, C08_pwd_trailing_text_ignored. The LIST fallback is carved out exactly "
@@ -681,6 +684,227 @@ def _parent_tree(comps):
     return t
 
 
+# ---------------------------------------------------------------- siblings and length boundary, every backend
+SIB_SUFFIXES = [".part", ".tmp", "~", ".bak", ".swp", ".new", ".old", ".1", "-part", ".filepart", ".crdownload", ".lock"]
+SIB_PREFIXES = [".", "~", ".#", "part."]
+BACKENDS = {"memory": aioftp.MemoryPathIO, "path": aioftp.PathIO, "async": aioftp.AsyncPathIO}
+
+
+def _disk_tree(root):
+    def walk(d):
+        out = {}
+        for e in os.scandir(d):
+            out[e.name] = walk(e.path) if e.is_dir(follow_symlinks=False) else open(e.path, "rb").read()
+        return out
+
+    return walk(root)
+
+
+def _nbytes(n):
+    return len(n.encode("utf-8"))
+
+
+def long_names(rng, lengths):
+    """names of exactly L UTF-8 bytes: ASCII, two-byte, four-byte code points, with metacharacter heads"""
+    out = []
+    for L in lengths:
+        for head, fill in (("", "a"), ("", "é"), ("-d ", "\U0001F600"), ('"', "é"), (" x;=", "a")):
+            n = head + fill * ((L - _nbytes(head)) // _nbytes(fill))
+            n += "z" * (L - _nbytes(n))
+            if valid_name(n) and _nbytes(n) == L:
+                out.append(n)
+    return out
+
+
+class BackendPair:
+    """real Server + Client over loopback on one of the three backends; .tree() is the backend's tree below the user's home"""
+
+    def __init__(self, backend):
+        self.backend = backend
+        self.root = None
+
+    async def __aenter__(self):
+        if self.backend == "memory":
+            self.server = aioftp.Server(None, path_io_factory=aioftp.MemoryPathIO)
+            self.server.path_io_factory.state = wire.mem_state({})
+        else:
+            self.root = tempfile.mkdtemp(prefix="c08_", dir=str(core.BUILD))
+            self.server = aioftp.Server([aioftp.User(base_path=self.root)], path_io_factory=BACKENDS[self.backend])
+        await self.server.start("127.0.0.1", 0)
+        await self.connect()
+        return self
+
+    async def connect(self):
+        self.client = aioftp.Client(socket_timeout=10)
+        await self.client.connect(self.server.server_host, self.server.server_port)
+        await self.client.login("anonymous", "anon@")
+
+    async def __aexit__(self, *exc):
+        try:
+            self.client.close()
+            await asyncio.wait_for(self.server.close(), 10)
+        finally:
+            if self.root:
+                shutil.rmtree(self.root, ignore_errors=True)
+
+    def tree(self):
+        return wire.snapshot(self.server.path_io_factory.state) if self.backend == "memory" else _disk_tree(self.root)
+
+    def reset(self):
+        if self.backend == "memory":
+            self.server.path_io_factory.state[:] = wire.mem_state({})
+        else:
+            for e in os.scandir(self.root):
+                shutil.rmtree(e.path) if e.is_dir(follow_symlinks=False) else os.unlink(e.path)
+
+
+async def wire_siblings(ctx, backend, cases):
+    """cases: ("sib", n, s) two names related by a suffix/prefix living in ONE directory, each operated on while the other
+    exists; ("long", x, y, z) three names of the same UTF-8 byte length at the backend's limit.  Oracle: the backend tree after
+    every operation (an operation on n leaves its sibling untouched); a refusal or a hang of the implementation is an observation."""
+    P = pathlib.PurePosixPath
+    n_ops = 0
+    async with BackendPair(backend) as p:
+        for case in cases:
+            p.reset()
+            c = p.client
+            kind = case[0]
+            cur = ["start"]
+            exp = {}
+
+            def bad(step, detail):
+                ctx.violation(f"{kind}/{step} on the {backend} backend: {detail}",
+                              {"key": f"c08-{kind}-{step}", "backend": backend, "case": list(case), "step": step, "detail": detail})
+
+            async def put(name, data, append=False):
+                async with (c.append_stream if append else c.upload_stream)(P(name)) as st:
+                    await st.write(data)
+
+            async def step(name, op, *a, expect=None):
+                """one client operation, then the tree oracle"""
+                nonlocal n_ops
+                cur[0] = name
+                r = await asyncio.wait_for(op(*a), 15)
+                n_ops += 1
+                if expect is not None and p.tree() != {"d": expect}:
+                    bad(name, f"tree {p.tree()!r}, expected {{'d': {expect!r}}}")
+                return r
+
+            async def get(name):
+                async with c.download_stream(P(name)) as st:
+                    return await st.read()
+
+            ctx.case(("siblings", backend) + tuple(case))
+            ctx.traces_impl += 1
+            try:
+                await c.change_directory("/")
+                if kind == "long":
+                    _, x, y, z = case
+                    try:
+                        await c.make_directory(P("d") / x)
+                    except errors.StatusCodeError:
+                        continue  # the backend does not carry a name of this length at all: outside the property
+                    await step("cwd", c.change_directory, P("d") / x)
+                    await step("cdup", c.change_directory, P("/d"))
+                    dy = b"y:" + y.encode("utf-8")[:40]
+                    await step("stor", put, y, dy, expect={x: {}, y: dy})
+                    listed = sorted((str(q), i["type"]) for q, i in await step("mlsd", c.list))
+                    if listed != sorted([(x, "dir"), (y, "file")]):
+                        bad("mlsd", f"listed {listed!r}")
+                    info = await step("mlst", c.stat, P(y))
+                    if info.get("type") != "file":
+                        bad("mlst", f"info {info!r}")
+                    if await step("retr", get, y) != dy:
+                        bad("retr", "other bytes")
+                    await step("appe", put, y, b"+", True, expect={x: {}, y: dy + b"+"})
+                    await step("rename", c.rename, P(y), P(z), expect={x: {}, z: dy + b"+"})
+                    await step("stor-again", put, y, dy, expect={x: {}, y: dy, z: dy + b"+"})
+                    await step("dele", c.remove, P(z), expect={x: {}, y: dy})
+                    await step("rmd", c.remove_directory, P(x), expect={y: dy})
+                    continue
+                _, n, sib = case
+                dn, ds = b"n:" + n.encode("utf-8"), b"s:" + sib.encode("utf-8")
+                await c.make_directory(P("d"))
+                await c.change_directory(P("d"))
+                # the sibling is a file first
+                await step("stor-sibling", put, sib, ds, expect={sib: ds})
+                await step("stor", put, n, dn, expect={sib: ds, n: dn})
+                await step("appe", put, n, b"+", True, expect={sib: ds, n: dn + b"+"})
+                if await step("retr", get, n) != dn + b"+" or await step("retr-sibling", get, sib) != ds:
+                    bad("retr", "other bytes")
+                await step("stor-over", put, n, dn, expect={sib: ds, n: dn})
+                listed = sorted((str(q), i["type"]) for q, i in await step("mlsd", c.list))
+                if listed != sorted([(n, "file"), (sib, "file")]):
+                    bad("mlsd", f"listed {listed!r}")
+                await step("rename", c.rename, P(n), P(n + ".moved"), expect={sib: ds, n + ".moved": dn})
+                await step("rename-back", c.rename, P(n + ".moved"), P(n), expect={sib: ds, n: dn})
+                await step("stor-sibling-over", put, sib, ds + b"2", expect={sib: ds + b"2", n: dn})
+                await step("dele", c.remove, P(n), expect={sib: ds + b"2"})
+                await step("stor-again", put, n, dn, expect={sib: ds + b"2", n: dn})
+                await step("dele-sibling", c.remove, P(sib), expect={n: dn})
+                # the sibling is a directory
+                await step("mkd-sibling", c.make_directory, P(sib), expect={sib: {}, n: dn})
+                await step("stor-next-to-dir", put, n, dn + b"3", expect={sib: {}, n: dn + b"3"})
+                await step("dele-next-to-dir", c.remove, P(n), expect={sib: {}})
+                await step("stor-new-next-to-dir", put, n, dn, expect={sib: {}, n: dn})
+                await step("stor-into-sibling", put, sib + "/" + n, dn, expect={sib: {n: dn}, n: dn})
+                await step("dele-2", c.remove, P(n), expect={sib: {n: dn}})
+                # and the other way round: n is a directory, the sibling a file
+                await step("mkd", c.make_directory, P(n), expect={sib: {n: dn}, n: {}})
+                await step("rmd-sibling-tree", c.remove, P(sib), expect={n: {}})
+                await step("stor-sibling-next-to-dir", put, sib, ds, expect={n: {}, sib: ds})
+                await step("rmd", c.remove_directory, P(n), expect={sib: ds})
+            except (errors.StatusCodeError, errors.PathIOError, ValueError, KeyError, IndexError, ConnectionError, asyncio.TimeoutError, OSError) as e:
+                bad(cur[0], f"raised {type(e).__name__}: {e}; tree {p.tree()!r}")
+                try:
+                    p.client.close()
+                    await asyncio.wait_for(p.connect(), 10)
+                except Exception as e2:
+                    ctx.notes.append(f"siblings chunk on {backend} abandoned: {type(e2).__name__}: {e2}")
+                    break
+    return n_ops
+
+
+def sibling_cases(ctx):
+    rng = ctx.rng
+    k = 36 if ctx.tier == "thorough" else 10
+    base = ["report", "data", 'a"b', " x", "Type=dir; y", "250 z", "x.part", "é"] + [gen_name(rng) for _ in range(k)]
+    cases = []
+    for i, n in enumerate(dict.fromkeys(base)):
+        for j in range(3 if ctx.tier == "thorough" else 2):
+            t = (i * 5 + j * 7) % (len(SIB_SUFFIXES) + len(SIB_PREFIXES))
+            sib = n + SIB_SUFFIXES[t] if t < len(SIB_SUFFIXES) else SIB_PREFIXES[t - len(SIB_SUFFIXES)] + n
+            if j == 0 and i < 8:
+                sib = n + ".part" if i % 2 == 0 else n + ".tmp"
+            if valid_name(sib) and sib != n:
+                cases.append(("sib", n, sib))
+    longs = long_names(rng, [200, 250, 251, 252, 253, 254, 255] if ctx.tier == "thorough" else [250, 251, 254, 255])
+    for n in longs:
+        y = n[:-1] + ("y" if n[-1] != "y" else "w")
+        z = n[:-1] + ("q" if n[-1] != "q" else "w")
+        if len({n, y, z}) == 3 and all(valid_name(v) for v in (y, z)):
+            cases.append(("long", n, y, z))
+    # mix the two kinds so that the first reported replays show both dimensions
+    longs_c = [c for c in cases if c[0] == "long"]
+    sibs_c = [c for c in cases if c[0] == "sib"]
+    return longs_c[:2] + sibs_c[:2] + longs_c[2:] + sibs_c[2:]
+
+
+def stream_siblings(ctx):
+    cases = sibling_cases(ctx)
+    total = 0
+    for backend in BACKENDS:
+        try:
+            total += wire.run(wire_siblings(ctx, backend, cases), timeout=900)
+        except asyncio.TimeoutError:
+            ctx.violation(f"the siblings stream on the {backend} backend did not finish within its budget (a hang of the implementation)",
+                          {"key": f"c08-sib-hang-{backend}", "backend": backend})
+    ctx.count("sibling_cases_per_backend", sum(c[0] == "sib" for c in cases))
+    ctx.count("long_name_cases_per_backend", sum(c[0] == "long" for c in cases))
+    ctx.count("sibling_stream_operations", total)
+    ctx.sample({"stream": "siblings", "cases": [list(c)[:3] for c in cases[:4]], "backends": list(BACKENDS)})
+
+
 def stream_wire(ctx, xcheck=None):
     rng = ctx.rng
     n = 600 if ctx.tier == "thorough" else 160
@@ -741,7 +965,13 @@ def correspondence(ctx):
         "from inside n with MLSD and with LIST (the child carries the listed directory's own name; relative one-component listed "
         "path) and the bounded recursive walk with both, remove of the tree; a quarter of the cases at depth 2-3 repeat one name "
         "along the whole path; an exception of the implementation is reported against the operation in progress and the run goes "
-        "on with a fresh client session; (session-model) every command line the real client sent in a wire case (with the STOR/APPE payloads and "
+        "on with a fresh client session; (siblings, on EACH backend MemoryPathIO / PathIO / AsyncPathIO over loopback) two names "
+        "related by a suffix or prefix (.part .tmp ~ .bak .swp .new .old .1 -part .filepart .crdownload .lock; . ~ .# part.) in ONE "
+        "directory, each uploaded / appended / downloaded / overwritten / renamed / deleted while the other exists as a file and "
+        "as a directory, and names of exactly 250..255 UTF-8 bytes (1-, 2- and 4-byte code points, metacharacter heads) that the "
+        "backend accepts for MKD: CWD, STOR, MLSD, MLST, RETR, APPE, RNFR/RNTO, DELE, RMD under names of the same length; the "
+        "backend tree is compared after every operation (an operation on n leaves its sibling untouched), every operation under "
+        "a 15 s watchdog (a hang is an observation); (session-model) every command line the real client sent in a wire case (with the STOR/APPE payloads and "
         "a data connection after each EPSV) is run through Model/NamesSession.irun (parse_command + Model/Session.v): first reply "
         "code of every command, PWD texts, RETR bytes, listed names, final tree and working directory must equal what the real "
         "server did. Non-trivial = distinct input."
@@ -750,6 +980,7 @@ def correspondence(ctx):
     stream_codecs(ctx, xcheck)
     xcheck2 = []
     stream_wire(ctx, xcheck2)
+    stream_siblings(ctx)
     xcheck = xcheck[:96] + xcheck2
     ok, out = core.vm_crosscheck(EXTRACT, xcheck[:100])
     ctx.extra["vm_compute_crosscheck"] = {"cases": len(xcheck[:100]), "agree": ok}
@@ -794,6 +1025,11 @@ def replay(ctx, data):
             got = impl.client.parse_mlsx_line((s + "\r\n").encode())[0]
         print("decoded", repr(str(got)))
         return got == P(r["name"])
+    if key.startswith("c08-sib-") or key.startswith("c08-long-"):
+        before = len(ctx.violations) + len(ctx.known_hits)
+        wire.run(wire_siblings(ctx, r["backend"], [tuple(r["case"])]))
+        print("violations:", ctx.violations[before:before + 2] or ctx.known_hits[-1:])
+        return len(ctx.violations) + len(ctx.known_hits) == before
     if key.startswith("c08-wire-"):
         before = len(ctx.violations) + len(ctx.known_hits)
         comps = [x for x in r["path"].split("/") if x]
